@@ -16,6 +16,13 @@ Engine E2 (complete enumeration of finite expression lattices).
     all FLAG_*/CC_* operators included), ExprAssign (identifier, memory and slice destinations), and every
     node kind over identifier / operator names from a hostile alphabet (quotes, backslashes, spaces, newline,
     NUL, non-ASCII, empty, bytes).  Oracle: eval(src, vars(miasm.expression.expression)) `is` the expression.
+
+Translator instances: the bulk families of (a) and (b) use a FRESH translator per expression (a case replays
+alone).  History families use ONE instance across many expressions (Translator.from_expr caches per instance):
+ordered pairs of width 61..128 expressions of every node kind differing only in a constant from the
+hash-collision boundary alphabet of CPython ints (k*(2**61-1) +-1, 2**61, ...), and whole families (d1, hostile
+names - str/bytes names hash alike -, wide, assign) translated in order by one instance, beyond the 1000 entries
+of its bounded cache.  A violation found there records the history, which the replay regenerates.
 """
 import ast
 import itertools
@@ -40,7 +47,7 @@ LEVEL_TEXT = ("Bounded-exhaustive: (a) the emitted Python source of every expres
               "hash-consed object.  Both translators are structural recursions without width-specific branches.")
 LEVEL_NOTE = ("Trusted: mc/refsem.py, CPython eval.  Not covered: depth > 2, ExprLoc (both translators: excluded by the "
               "property / emits a non-evaluable name), the from_ExprAssign form of TranslatorPython (a statement, not an "
-              "expression), the translators' cache across expressions (fresh translator per expression), '<<' counts in "
+              "expression), '<<' counts in "
               "(2^16, 2^52], memory reads whose size is not a byte multiple (no miasm meaning), expressions mixing "
               "pointer widths in (a) (memory(addr, n) cannot tell the address spaces apart).")
 TECHNIQUE = "complete enumeration of a small-width expression lattice; eval() of the emitted source vs reference evaluator / object identity"
@@ -90,12 +97,19 @@ class PyBackend(object):
     def __init__(self, big_endian=False):
         pass
 
-    def src(self, e):
+    def new_instance(self):
         from miasm.ir.translators import Translator
-        return Translator.to_language("Python").from_expr(e)
+        return Translator.to_language("Python")
 
-    def translate(self, e):
-        src = self.src(e)
+    def same(self, h1, h2):
+        return h1["src"] == h2["src"]
+
+    def src(self, e, tr=None):
+        return (tr or self.new_instance()).from_expr(e)
+
+    def translate(self, e, tr=None):
+        """Fresh translator per expression unless an instance is given (history families)."""
+        src = self.src(e, tr)
         # The emitted source is evaluated as emitted, except that every `a << b` / `a ** b` it contains goes through
         # a guard with the same value (same operand order): Python would build an integer of b bits, so a count in
         # (2^16, 2^52] with a non-zero left operand is not evaluated (SkipEval, counted); above 2^52 the real
@@ -332,6 +346,109 @@ def judge_b(e, case):
     return r[0], [violation("miasm|%s|%s|%s" % (kind_of(node), name_class(node), nr[1]), what, case)]
 
 
+def hist_pairs_b(w):
+    """Ordered pairs of expressions (every node kind) that differ only in a constant from the hash-collision boundary
+    alphabet of CPython ints; ONE TranslatorMiasm instance translates the first, then the second."""
+    E = _E()
+    x, y = E.ExprId("x%d" % w, w), E.ExprId("y%d" % w, w)
+    cs = T.collision_consts(w, limit=14)
+    shapes = [lambda c: E.ExprInt(c, w),
+              lambda c: E.ExprOp("+", x, E.ExprInt(c, w)),
+              lambda c: E.ExprCond(x, E.ExprInt(c, w), y),
+              lambda c: E.ExprCompose(E.ExprInt(c, w)[0:w // 2], x[w // 2:w]),
+              lambda c: E.ExprMem(E.ExprInt(c, w), 8),
+              lambda c: E.ExprAssign(x, E.ExprInt(c, w)),
+              lambda c: E.ExprOp("FLAG_EQ_CMP", x, E.ExprInt(c, w))]
+    for sh in shapes:
+        for c1 in cs:
+            for c2 in cs:
+                if c1 != c2:
+                    yield [sh(c1), sh(c2)]
+
+
+def hist_sequences_b(fam, params):
+    """-> iterator of (sequence, check every element?)"""
+    if fam == "hpairs_b":
+        for seq in hist_pairs_b(*params):
+            yield seq, False
+    elif fam == "hseq_b":
+        sub, subparams = params
+        yield list(family_iter_b(sub, subparams)), True
+    else:
+        raise ValueError(fam)
+
+
+def judge_history_b(seq, case0, check_all):
+    """ONE TranslatorMiasm instance translates seq in order; the source emitted for the last element (check_all:
+    for every element) must evaluate to that very expression.  -> (number checked, violations)"""
+    from miasm.ir.translators import Translator
+    tr = Translator.to_language("Miasm")
+    vs = []
+    n = 0
+    prev = None
+    for k, e in enumerate(seq):
+        try:
+            src = tr.from_expr(e)
+        except Exception:
+            prev = e
+            continue                      # judged by the fresh-instance families
+        if check_all or k == len(seq) - 1:
+            n += 1
+            try:
+                r = eval(src, _namespace())
+                bad = r is not e
+                got = "evaluates to %r" % (r,)
+            except Exception as ex:
+                bad, got = True, "raises %r" % (ex,)
+            if bad and _roundtrip(e) is None:
+                case = dict(case0)
+                case.update({"upto": k, "expr": repr(e)})
+                node = e
+                while True:             # deepest sub-expression the same instance already mistranslates
+                    for ch in _sub(node):
+                        try:
+                            if eval(tr.from_expr(ch), _namespace()) is not ch and _roundtrip(ch) is None:
+                                node = ch
+                                break
+                        except Exception:
+                            pass
+                    else:
+                        break
+                vs.append(violation("miasm|shared-instance|%s|%s|source-of-another-expression" % (kind_of(node), name_class(node)),
+                                    "one TranslatorMiasm instance, after translating %d expression(s) (last: %r), emits for %r "
+                                    "the source %s which %s; a fresh instance rebuilds the expression itself" % (
+                                        k, prev, e, src[:200], got), case))
+        prev = e
+    return n, vs
+
+
+def shard_hist_b(args):
+    fam, params, idx, nsh = args
+    n = nseq = 0
+    vs = []
+    per_sig = {}
+    for i, (seq, check_all) in enumerate(hist_sequences_b(fam, params)):
+        if i % nsh != idx:
+            continue
+        nseq += 1
+        k, v = judge_history_b(seq, {"part": "b", "hist": True, "fam": fam, "params": params, "index": i}, check_all)
+        n += k
+        for x in v:
+            per_sig[x["sig"]] = per_sig.get(x["sig"], 0) + 1
+            if per_sig[x["sig"]] <= T.MAX_PER_SIG:
+                vs.append(x)
+    return {"n": n, "nseq": nseq, "vs": vs, "per_sig": per_sig, "fam": "%s:%r" % (fam, params)}
+
+
+def families_hist_b(tier):
+    quick = tier == "quick"
+    out = [("hpairs_b", (w,), 1) for w in ((61, 64, 128) if quick else (61, 62, 63, 64, 65, 128))]
+    out += [("hseq_b", ("d1", ((1, 2, 3),) if quick else ((1, 2, 3, 4),)), 1),
+            ("hseq_b", ("hostile", ((1, 2, 3, 8),)), 1), ("hseq_b", ("wide", ((64, 128),)), 1),
+            ("hseq_b", ("assign", ((1, 2, 3, 4, 8, 16),)), 1)]
+    return out
+
+
 def shard_b(args):
     fam, params, idx, nsh = args
     n = nt = 0
@@ -394,6 +511,17 @@ def run(ctx):
         b["per_family"][r["fam"]] = b["per_family"].get(r["fam"], 0) + r["n"]
         if r["sample"] and len(b["samples"]) < 6:
             b["samples"].append(r["sample"])
+    hfams = families_hist_b(ctx.tier)
+    hshards = [(fam, params, i, nsh) for fam, params, nsh in hfams for i in range(nsh)]
+    hres = [shard_hist_b(x) for x in hshards] if ctx.quick else ctx.pmap(shard_hist_b, hshards)
+    b["shared_instance"] = {"sequences": 0, "translations_checked": 0, "per_family": {}}
+    for r in hres:
+        ctx.add_violations(r["vs"])
+        b["shared_instance"]["sequences"] += r["nseq"]
+        b["shared_instance"]["translations_checked"] += r["n"]
+        b["shared_instance"]["per_family"][r["fam"]] = r["n"]
+        for k, v in r["per_sig"].items():
+            b["violations_by_signature"][k] = b["violations_by_signature"].get(k, 0) + v
     b["hostile_names"] = [repr(n) for n in HOSTILE]
     cov["python_source"] = {k: cov[k] for k in ("expressions", "accepted_expressions", "evaluations", "agree", "nontrivial",
                                                 "undefined_skipped", "skipped_evals")}
@@ -402,6 +530,7 @@ def run(ctx):
     cov["distinct_nontrivial"] = cov["distinct_nontrivial"] + b["distinct_nontrivial"]
     cov["construction_expressions"] = b["expressions"]
     cov["construction_identical"] = b["status"].get("ok", 0)
+    cov["construction_shared_instance_checked"] = b["shared_instance"]["translations_checked"]
     cov["samples"] = cov["samples"] + b["samples"][:3]
     cov["bounds"] = {"python": {"small_widths": list(T.SMALL), "all_valuations_up_to_bits": T.ALL_BITS,
                                 "wide_widths": list(WIDE_QUICK if ctx.quick else WIDE_THOROUGH),
@@ -409,11 +538,20 @@ def run(ctx):
                                 "data_sizes": list(DATA_QUICK if ctx.quick else DATA_THOROUGH),
                                 "shl_count_not_evaluated": [SHL_LO, SHL_HI],
                                 "plan": [[bn, f, repr(p)] for bn, _, f, p, _ in pa]},
-                     "miasm": {"families": [[f, repr(p)] for f, p, _ in fams], "hostile_names": len(HOSTILE)}}
+                     "miasm": {"families": [[f, repr(p)] for f, p, _ in fams], "hostile_names": len(HOSTILE),
+                               "shared_instance_families": [[f, repr(p)] for f, p, _ in hfams]}}
     return cov
 
 
 def replay(case):
+    if case.get("part") == "b" and case.get("hist"):
+        for i, (seq, check_all) in enumerate(hist_sequences_b(case["fam"], _totuple(case["params"]))):
+            if i == case["index"]:
+                seq = seq[:case["upto"] + 1]
+                if repr(seq[-1]) != case["expr"]:
+                    raise AssertionError("history does not regenerate the recorded expression")
+                return judge_history_b(seq, {k: case[k] for k in ("part", "hist", "fam", "params", "index")}, False)[1]
+        return []
     if case.get("part") == "b":
         e = None
         try:
